@@ -1454,6 +1454,336 @@ fn gpos_strategy() -> impl Strategy<Value = GposCase> {
 }
 
 // =============================================================================================
+// real GSUB / GPOS tables that need extension promotion, with subtables shared between lookups (same type, and
+// byte-identical subtables of DIFFERENT lookup types); walked with an own reader, extension wrappers included
+
+mod lx {
+    pub use write_fonts::tables::gpos::{Gpos, PairPos, PairSet, PairValueRecord, PositionLookup, SinglePos, ValueRecord};
+    pub use write_fonts::tables::gsub::{AlternateSet, AlternateSubstFormat1, Gsub, MultipleSubstFormat1, Sequence, SingleSubst, SubstitutionLookup};
+    pub use write_fonts::tables::layout::{CoverageTable, Lookup, LookupFlag, LookupList};
+    pub use write_fonts::types::GlyphId16;
+}
+
+/// the content of one subtable: `n` covered glyphs first, first+stride, ..; per glyph `len` values h(seed, i, k)
+#[derive(Clone, Debug, Serialize, Deserialize)]
+struct PoolSpec {
+    first: u16,
+    stride: u8,
+    n: u16,
+    len: u8,
+    seed: u16,
+}
+
+#[derive(Clone, Debug, Serialize, Deserialize)]
+struct ExtLookup {
+    /// GSUB: 0 Multiple (type 2), 1 Alternate (type 3), 2 Single format 2 (type 1); GPOS: 0 SinglePos format 2 (type 1), 1 PairPos format 1 (type 2)
+    kind: u8,
+    /// indices into the pool
+    subs: Vec<u8>,
+}
+
+#[derive(Clone, Debug, Serialize, Deserialize)]
+struct ExtCase {
+    gpos: bool,
+    pool: Vec<PoolSpec>,
+    lookups: Vec<ExtLookup>,
+}
+
+impl PoolSpec {
+    fn glyph(&self, i: u32) -> u16 {
+        (self.first as u32 + i * self.stride.max(1) as u32) as u16
+    }
+    fn value(&self, i: u32, k: u32) -> u16 {
+        h16(self.seed, i, k) as u16
+    }
+    /// PairPos subtables stay below the splitting threshold (this stage is about promotion, `gpos` covers splitting)
+    fn pair_n(&self) -> u32 {
+        (self.n as u32).min(48_000 / (6 + 4 * self.len.max(1) as u32))
+    }
+}
+
+fn ext_type(gpos: bool, kind: u8) -> u16 {
+    match (gpos, kind) {
+        (false, 0) => 2,
+        (false, 1) => 3,
+        (false, _) => 1,
+        (true, 0) => 1,
+        (true, _) => 2,
+    }
+}
+
+fn build_ext(c: &ExtCase) -> Result<Vec<u8>, write_fonts::error::Error> {
+    let g = |v: u16| lx::GlyphId16::new(v);
+    let cov = |p: &PoolSpec, n: u32| -> lx::CoverageTable { (0..n).map(|i| g(p.glyph(i))).collect() };
+    let seq = |p: &PoolSpec, i: u32| -> Vec<lx::GlyphId16> { (0..p.len.max(1) as u32).map(|k| g(p.value(i, k))).collect() };
+    let pool = |ix: &u8| &c.pool[*ix as usize % c.pool.len()];
+    let flag = lx::LookupFlag::empty();
+    if c.gpos {
+        let lookups = c
+            .lookups
+            .iter()
+            .map(|l| match l.kind {
+                0 => lx::PositionLookup::Single(lx::Lookup::new(
+                    flag,
+                    l.subs.iter().map(pool).map(|p| lx::SinglePos::format_2(cov(p, p.n as u32), (0..p.n as u32).map(|i| lx::ValueRecord::new().with_x_advance(p.value(i, 0) as i16)).collect())).collect(),
+                )),
+                _ => lx::PositionLookup::Pair(lx::Lookup::new(
+                    flag,
+                    l.subs
+                        .iter()
+                        .map(pool)
+                        .map(|p| {
+                            let sets = (0..p.pair_n())
+                                .map(|i| {
+                                    lx::PairSet::new(
+                                        (0..p.len.max(1) as u32)
+                                            .map(|k| lx::PairValueRecord::new(g(10 + k as u16 * 2), lx::ValueRecord::new().with_x_advance(p.value(i, k) as i16), lx::ValueRecord::new()))
+                                            .collect(),
+                                    )
+                                })
+                                .collect();
+                            lx::PairPos::format_1(cov(p, p.pair_n()), sets)
+                        })
+                        .collect(),
+                )),
+            })
+            .collect();
+        dump_table(&lx::Gpos::new(Default::default(), Default::default(), lx::LookupList::new(lookups)))
+    } else {
+        let lookups = c
+            .lookups
+            .iter()
+            .map(|l| match l.kind {
+                0 => lx::SubstitutionLookup::Multiple(lx::Lookup::new(
+                    flag,
+                    l.subs.iter().map(pool).map(|p| lx::MultipleSubstFormat1::new(cov(p, p.n as u32), (0..p.n as u32).map(|i| lx::Sequence::new(seq(p, i))).collect())).collect(),
+                )),
+                1 => lx::SubstitutionLookup::Alternate(lx::Lookup::new(
+                    flag,
+                    l.subs.iter().map(pool).map(|p| lx::AlternateSubstFormat1::new(cov(p, p.n as u32), (0..p.n as u32).map(|i| lx::AlternateSet::new(seq(p, i))).collect())).collect(),
+                )),
+                _ => lx::SubstitutionLookup::Single(lx::Lookup::new(
+                    flag,
+                    l.subs.iter().map(pool).map(|p| lx::SingleSubst::format_2(cov(p, p.n as u32), (0..p.n as u32).map(|i| g(p.value(i, 0))).collect())).collect(),
+                )),
+            })
+            .collect();
+        dump_table(&lx::Gsub::new(Default::default(), Default::default(), lx::LookupList::new(lookups)))
+    }
+}
+
+fn xfail(what: &str, msg: String) -> Fail {
+    Fail::new(format!("c05|layout|{what}"), msg)
+}
+fn r16(b: &[u8], pos: usize, what: &str) -> Result<u16, Fail> {
+    b.get(pos..pos + 2).map(|x| u16::from_be_bytes([x[0], x[1]])).ok_or_else(|| xfail("out-of-bounds", format!("{what}: reading 2 bytes at {pos} of {}", b.len())))
+}
+fn r32(b: &[u8], pos: usize, what: &str) -> Result<u32, Fail> {
+    b.get(pos..pos + 4).map(|x| u32::from_be_bytes([x[0], x[1], x[2], x[3]])).ok_or_else(|| xfail("out-of-bounds", format!("{what}: reading 4 bytes at {pos} of {}", b.len())))
+}
+/// own coverage reader (either format): the covered glyphs in order
+fn read_coverage(b: &[u8], pos: usize, what: &str) -> Result<Vec<u16>, Fail> {
+    let n = r16(b, pos + 2, what)? as usize;
+    match r16(b, pos, what)? {
+        1 => (0..n).map(|i| r16(b, pos + 4 + 2 * i, what)).collect(),
+        2 => {
+            let mut out = vec![];
+            for i in 0..n {
+                let (s, e, ix) = (r16(b, pos + 4 + 6 * i, what)?, r16(b, pos + 6 + 6 * i, what)?, r16(b, pos + 8 + 6 * i, what)?);
+                if ix as usize != out.len() || e < s {
+                    return Err(xfail("not-a-copy", format!("{what}: coverage range {i} ({s}..={e}, start index {ix}) is inconsistent")));
+                }
+                out.extend(s..=e);
+            }
+            Ok(out)
+        }
+        f => Err(xfail("not-a-copy", format!("{what}: coverage format {f}"))),
+    }
+}
+
+/// is the object at `pos` a copy of the subtable that `p` describes for a lookup of this kind? (all offsets followed)
+fn check_subtable(b: &[u8], pos: usize, gpos: bool, kind: u8, p: &PoolSpec, what: &str) -> CaseResult {
+    let bad = |m: String| Err(xfail("not-a-copy", format!("{what} at {pos}: {m}")));
+    let n = if gpos && kind != 0 { p.pair_n() } else { p.n as u32 };
+    let len = p.len.max(1) as u32;
+    let format = r16(b, pos, what)?;
+    let cov = read_coverage(b, pos + r16(b, pos + 2, what)? as usize, what)?;
+    if cov != (0..n).map(|i| p.glyph(i)).collect::<Vec<_>>() {
+        return bad(format!("coverage has {} glyphs (first {:?}), expected {n} from {}", cov.len(), cov.first(), p.first));
+    }
+    match (gpos, kind) {
+        (false, 0) | (false, 1) => {
+            if format != 1 || r16(b, pos + 4, what)? as u32 != n {
+                return bad(format!("format {format}, count {}", r16(b, pos + 4, what)?));
+            }
+            for i in 0..n {
+                let s = pos + r16(b, pos + 6 + 2 * i as usize, what)? as usize;
+                if r16(b, s, what)? as u32 != len {
+                    return bad(format!("sequence/alternate set {i} has {} glyphs, expected {len}", r16(b, s, what)?));
+                }
+                for k in 0..len {
+                    if r16(b, s + 2 + 2 * k as usize, what)? != p.value(i, k) {
+                        return bad(format!("sequence/alternate set {i} glyph {k} differs"));
+                    }
+                }
+            }
+        }
+        (false, _) => {
+            if format != 2 || r16(b, pos + 4, what)? as u32 != n {
+                return bad(format!("format {format}, count {}", r16(b, pos + 4, what)?));
+            }
+            for i in 0..n {
+                if r16(b, pos + 6 + 2 * i as usize, what)? != p.value(i, 0) {
+                    return bad(format!("substitute {i} differs"));
+                }
+            }
+        }
+        (true, 0) => {
+            if format != 2 || r16(b, pos + 4, what)? != 4 || r16(b, pos + 6, what)? as u32 != n {
+                return bad(format!("format {format}, value format {}, count {}", r16(b, pos + 4, what)?, r16(b, pos + 6, what)?));
+            }
+            for i in 0..n {
+                if r16(b, pos + 8 + 2 * i as usize, what)? != p.value(i, 0) {
+                    return bad(format!("value {i} differs"));
+                }
+            }
+        }
+        (true, _) => {
+            if format != 1 || r16(b, pos + 4, what)? != 4 || r16(b, pos + 6, what)? != 0 || r16(b, pos + 8, what)? as u32 != n {
+                return bad(format!("format {format}, value formats {}/{}, count {}", r16(b, pos + 4, what)?, r16(b, pos + 6, what)?, r16(b, pos + 8, what)?));
+            }
+            for i in 0..n {
+                let s = pos + r16(b, pos + 10 + 2 * i as usize, what)? as usize;
+                if r16(b, s, what)? as u32 != len {
+                    return bad(format!("pair set {i} has {} records, expected {len}", r16(b, s, what)?));
+                }
+                for k in 0..len {
+                    if r16(b, s + 2 + 4 * k as usize, what)? != 10 + k as u16 * 2 || r16(b, s + 4 + 4 * k as usize, what)? != p.value(i, k) {
+                        return bad(format!("pair set {i} record {k} differs"));
+                    }
+                }
+            }
+        }
+    }
+    Ok(())
+}
+
+fn test_ext(c: &ExtCase, stats: &Stats) -> CaseResult {
+    if c.pool.is_empty() || c.lookups.iter().any(|l| l.subs.is_empty()) {
+        return Ok(());
+    }
+    // does any subtable object end up referenced from two lookups (content-wise)? then a partly promoted table has an
+    // object behind both 16-bit and 32-bit links: the first known finding's predicate
+    let mut users: BTreeMap<(usize, bool), BTreeSet<usize>> = BTreeMap::new();
+    for (li, l) in c.lookups.iter().enumerate() {
+        for s in &l.subs {
+            // Multiple and Alternate subtables over the same content are byte-identical
+            users.entry((*s as usize % c.pool.len(), !c.gpos && l.kind >= 2 || c.gpos && l.kind != 0)).or_default().insert(li);
+        }
+    }
+    let shared = users.values().any(|u| u.len() > 1);
+    let res = guarded(|| build_ext(c)).map_err(|f| {
+        let kind = if shared { "panic-mixed-width" } else { "layout-panic" };
+        Fail::new(format!("c05|{kind}|{}", f.sig), format!("dump_table({}): {} for {c:?}", if c.gpos { "Gpos" } else { "Gsub" }, f.msg))
+    })?;
+    let b = match res {
+        Ok(b) => b,
+        Err(write_fonts::error::Error::PackingFailed(_)) => {
+            stats.class("layout:unpackable");
+            return Ok(());
+        }
+        Err(e) => return Err(xfail("unexpected-error", format!("dump_table returned {e} for a valid table"))),
+    };
+    stats.class("layout:packed");
+    let promoted_type = if c.gpos { 9 } else { 7 };
+    if r16(&b, 0, "header")? != 1 || r16(&b, 2, "header")? != 0 {
+        return Err(xfail("header", "version is not 1.0".into()));
+    }
+    for (off, what) in [(4, "script list"), (6, "feature list")] {
+        if r16(&b, r16(&b, off, what)? as usize, what)? != 0 {
+            return Err(xfail("not-a-copy", format!("{what} is not the empty list that was compiled")));
+        }
+    }
+    let ll = r16(&b, 8, "header")? as usize;
+    if r16(&b, ll, "lookup list")? as usize != c.lookups.len() {
+        return Err(xfail("lookup-count", format!("{} lookups, expected {}", r16(&b, ll, "lookup list")?, c.lookups.len())));
+    }
+    let (mut promoted, mut direct, mut cross, mut same) = (0, 0, false, false);
+    let mut promoted_users: BTreeMap<usize, BTreeSet<u16>> = BTreeMap::new();
+    for (li, l) in c.lookups.iter().enumerate() {
+        let what = format!("lookup {li}");
+        let lp = ll + r16(&b, ll + 2 + 2 * li, &what)? as usize;
+        let (ty, flag, count) = (r16(&b, lp, &what)?, r16(&b, lp + 2, &what)?, r16(&b, lp + 4, &what)? as usize);
+        let orig = ext_type(c.gpos, l.kind);
+        if (ty != orig && ty != promoted_type) || flag != 0 || count != l.subs.len() {
+            return Err(xfail("lookup-header", format!("{what}: type {ty} (compiled as {orig}), flag {flag}, {count} subtables (compiled {})", l.subs.len())));
+        }
+        for (si, s) in l.subs.iter().enumerate() {
+            let what = format!("lookup {li} (type {orig}) subtable {si}");
+            let p = &c.pool[*s as usize % c.pool.len()];
+            let mut sp = lp + r16(&b, lp + 6 + 2 * si, &what)? as usize;
+            if ty != orig {
+                // extension wrapper: format 1, the lookup's ORIGINAL type, 32-bit offset to the subtable
+                let (f, et, off) = (r16(&b, sp, &what)?, r16(&b, sp + 2, &what)?, r32(&b, sp + 4, &what)?);
+                if f != 1 || et != orig {
+                    return Err(xfail("extension-wrapper", format!("{what}: the offset lands on an extension subtable with format {f} and extensionLookupType {et}; the wrapper written for this lookup has type {orig}")));
+                }
+                sp += off as usize;
+                let u = promoted_users.entry(*s as usize % c.pool.len()).or_default();
+                u.insert(orig);
+                promoted += 1;
+            } else {
+                direct += 1;
+            }
+            check_subtable(&b, sp, c.gpos, l.kind, p, &what)?;
+        }
+    }
+    for u in promoted_users.values() {
+        cross |= u.len() > 1;
+    }
+    for ((_, _), u) in &users {
+        same |= u.len() > 1;
+    }
+    if promoted > 0 {
+        stats.class("layout:has_promoted_lookup");
+    }
+    if promoted > 0 && direct > 0 {
+        stats.class("layout:partly_promoted");
+    }
+    if cross {
+        stats.class("layout:identical_subtable_promoted_under_two_types");
+    }
+    if same {
+        stats.class("layout:subtable_shared_between_lookups");
+    }
+    stats.class(if c.gpos { "layout:gpos" } else { "layout:gsub" });
+    if promoted > 0 {
+        stats.nontrivial(hash_json(c));
+    }
+    Ok(())
+}
+
+fn ext_strategy() -> impl Strategy<Value = ExtCase> {
+    let pool = (0u16..20_000, 1u8..4, prop_oneof![1 => 1u16..100, 5 => 900u16..2000], prop_oneof![1 => 1u8..5, 4 => 6u8..11], any::<u16>()).prop_map(|(first, stride, n, len, seed)| PoolSpec { first, stride, n, len, seed });
+    let lookup = (0u8..3, proptest::collection::vec(any::<u8>(), 1..4), proptest::bool::weighted(0.5));
+    (any::<bool>(), proptest::collection::vec(pool, 2..7), proptest::collection::vec(lookup, 2..8)).prop_map(|(gpos, pool, raw)| {
+        let gpos = gpos && raw.len() % 3 == 0; // two thirds GSUB
+        let mut lookups = vec![];
+        for (kind, subs, twin) in raw {
+            let kind = if gpos { kind % 2 } else { kind };
+            lookups.push(ExtLookup { kind, subs: subs.clone() });
+            if twin {
+                // a second lookup over the same subtables: the other of Multiple/Alternate (byte-identical subtables of a
+                // different type) or, for the other kinds, the same type
+                let k2 = if !gpos && kind < 2 { 1 - kind } else { kind };
+                lookups.push(ExtLookup { kind: k2, subs });
+            }
+        }
+        ExtCase { gpos, pool, lookups }
+    })
+}
+
+// =============================================================================================
 // development aid: `c05 --minimize REPLAY.json` greedily reduces a failing graph case (same signature)
 
 fn prune_unreachable(spec: &Spec) -> Spec {
@@ -1713,6 +2043,9 @@ fn main() {
     }
     if on("dedup-adversarial") {
         ctx.prop_stage("dedup-adversarial", Isolation::Procs, ctx.n(4_000, 40_000), adversarial_strategy, test_graph);
+    }
+    if on("layout-ext") {
+        ctx.prop_stage("layout-ext", Isolation::Procs, ctx.n(1_500, 15_000), ext_strategy, test_ext);
     }
     if on("gpos") {
         ctx.prop_stage("gpos", Isolation::Procs, ctx.n(600, 6_000), gpos_strategy, test_gpos);
